@@ -217,6 +217,7 @@ func TestSim(t *testing.T) {
 		sum.Faults["job_error"] += res.ErrFired
 		sum.Faults["job_goexit"] += res.GoexitFired
 		sum.Faults["stuck_job_held"] += res.StuckHeld
+		sum.Faults["job_own_context_cancelled"] += res.JobCtxCancelled
 		for _, e := range res.Events {
 			if e.Kind == EvCancel {
 				sum.Faults["context_cancelled"]++
